@@ -309,9 +309,12 @@ enum Kind {
     SelfInc,
     FlipA,
     FlipB,
+    /// always true; the action asks for another agenda group to get the focus (engines whose actions can return
+    /// results; an always-true rule elsewhere)
+    Refocus,
 }
 
-const VARIANTS: [(Kind, bool); 8] = [(Kind::AlwaysTrue, false), (Kind::AlwaysTrue, true), (Kind::SelfInc, false), (Kind::SelfInc, true), (Kind::FlipA, false), (Kind::FlipB, false), (Kind::FlipA, true), (Kind::FlipB, true)];
+const VARIANTS: [(Kind, bool); 10] = [(Kind::AlwaysTrue, false), (Kind::AlwaysTrue, true), (Kind::SelfInc, false), (Kind::SelfInc, true), (Kind::FlipA, false), (Kind::FlipB, false), (Kind::FlipA, true), (Kind::FlipB, true), (Kind::Refocus, false), (Kind::Refocus, true)];
 const PRIO: [[i32; 3]; 3] = [[0, 0, 0], [5, 0, i32::MIN], [i32::MAX, i32::MIN, 0]];
 
 /// all multisets of 1..=3 variants x priority patterns
@@ -344,17 +347,18 @@ fn alpha(field: &str, op: &str, value: &str) -> ReteUlNode {
 
 fn node_for(k: Kind, field: &str) -> ReteUlNode {
     match k {
-        Kind::AlwaysTrue | Kind::SelfInc => alpha(field, ">=", "0"),
+        Kind::AlwaysTrue | Kind::SelfInc | Kind::Refocus => alpha(field, ">=", "0"),
         Kind::FlipA => alpha(field, "==", "0"),
         Kind::FlipB => alpha(field, "==", "1"),
     }
 }
 
 fn typed_action(k: Kind, field: &'static str) -> Arc<dyn Fn(&mut TypedFacts, &mut ActionResults) + Send + Sync> {
-    Arc::new(move |f: &mut TypedFacts, _r: &mut ActionResults| {
+    Arc::new(move |f: &mut TypedFacts, r: &mut ActionResults| {
         let cur = f.get(field).and_then(|v| v.as_integer()).unwrap_or(0);
         match k {
             Kind::AlwaysTrue => {}
+            Kind::Refocus => r.add(rust_rule_engine::rete::action_result::ActionResult::ActivateAgendaGroup("G".to_string())),
             Kind::SelfInc => f.set(field, FactValue::Integer(cur.wrapping_add(1))),
             Kind::FlipA => f.set(field, FactValue::Integer(1)),
             Kind::FlipB => f.set(field, FactValue::Integer(0)),
@@ -393,7 +397,7 @@ fn run_termination_case(engine: usize, set: &(Vec<usize>, usize)) -> (usize, usi
                 move |f: &mut std::collections::HashMap<String, String>| {
                     let cur: i64 = f.get("v").and_then(|s| s.parse().ok()).unwrap_or(0);
                     match k {
-                        Kind::AlwaysTrue => {}
+                        Kind::AlwaysTrue | Kind::Refocus => {}
                         Kind::SelfInc => {
                             f.insert("v".into(), cur.wrapping_add(1).to_string());
                         }
@@ -568,12 +572,18 @@ fn second_call_refires(set: &(Vec<usize>, usize)) -> Vec<String> {
     (0..vars.len()).filter(|&i| VARIANTS[vars[i]].1).map(|i| format!("r{}", i)).filter(|r| first.contains(r) && second.contains(r)).collect()
 }
 
-fn run_second_call(_opts: &Opts) -> Report {
+/// `skip`: rule sets for which the (isolated) termination sub-check found that IncrementalEngine::fire_all does not
+/// return — already reported there; they cannot be run in this process
+fn run_second_call(_opts: &Opts, skip: &BTreeSet<usize>) -> Report {
     let t0 = Instant::now();
     let mut rep = Report::new("no_loop_across_calls");
     let sets = rule_sets();
     let mut nt = 0u64;
     for (k, set) in sets.iter().enumerate() {
+        if skip.contains(&k) {
+            rep.count("skipped_because_fire_all_does_not_return", 1);
+            continue;
+        }
         rep.count("evaluations", 1);
         let case = json!({"sub": "no_loop_across_calls", "set": k, "rules": describe(k)["rules"]});
         match std::panic::catch_unwind(|| second_call_refires(set)) {
@@ -594,10 +604,14 @@ fn run_second_call(_opts: &Opts) -> Report {
     rep
 }
 
-fn run_termination(opts: &Opts) -> Report {
+/// also returns the rule sets for which IncrementalEngine::fire_all did not return (hang or abort)
+fn run_termination(opts: &Opts) -> (Report, BTreeSet<usize>) {
     let t0 = Instant::now();
     let mut rep = Report::new("termination");
     let ns = rule_sets().len();
+    // every rule set counts as "not returning" until its IncrementalEngine case has come back from a child (cases that
+    // were never handed out because the hang budget was used up included)
+    let mut not_returning: BTreeSet<usize> = (0..ns).collect();
     let n = ns * ENGINES.len();
     let timeout = Duration::from_secs(if opts.tier == Tier::Quick { 10 } else { 120 });
     let res = isolate::run_batch("C07", "term", n, timeout, 16, &[]);
@@ -609,6 +623,9 @@ fn run_termination(opts: &Opts) -> Report {
         rep.letter(ENGINES[k / ns]);
         match o {
             Outcome::Done(v) => {
+                if k / ns == 0 {
+                    not_returning.remove(&(k % ns));
+                }
                 if let Some(p) = v.get("panic") {
                     rep.violation(Violation { class: "fire_all_panicked".into(), detail: format!("{} panicked: {}", ENGINES[k / ns], p), tags: vec![], case: describe(k) });
                 } else {
@@ -628,8 +645,18 @@ fn run_termination(opts: &Opts) -> Report {
                     }
                 }
             }
-            Outcome::Hang => rep.violation(Violation { class: "fire_all_did_not_return".into(), detail: format!("{} did not return within {:?}", ENGINES[k / ns], timeout), tags: vec![], case: describe(k) }),
-            Outcome::Abort(m) => rep.violation(Violation { class: "fire_all_aborted".into(), detail: format!("{}: {}", ENGINES[k / ns], m), tags: vec![], case: describe(k) }),
+            Outcome::Hang => {
+                if k / ns == 0 {
+                    not_returning.insert(k % ns);
+                }
+                rep.violation(Violation { class: "fire_all_did_not_return".into(), detail: format!("{} did not return within {:?}", ENGINES[k / ns], timeout), tags: vec![], case: describe(k) })
+            }
+            Outcome::Abort(m) => {
+                if k / ns == 0 {
+                    not_returning.insert(k % ns);
+                }
+                rep.violation(Violation { class: "fire_all_aborted".into(), detail: format!("{}: {}", ENGINES[k / ns], m), tags: vec![], case: describe(k) })
+            }
         }
     }
     if let Some(t) = isolate::truncated() {
@@ -638,9 +665,9 @@ fn run_termination(opts: &Opts) -> Report {
         rep.notes.push(format!("MACHINERY: {} of {} termination cases produced no result", n - done.len(), n));
     }
     rep.count("nontrivial", distinct.len() as u64);
-    rep.bound = format!("{} engines x all multisets of 1..3 rules over {{always-true, self-incrementing, flip-flop A/B}} x {{no-loop, not}} x 3 priority patterns (incl. i32::MIN / i32::MAX) = {} runs, each in a watched child (timeout {:?})", ENGINES.len(), n, timeout);
+    rep.bound = format!("{} engines x all multisets of 1..3 rules over {{always-true, self-incrementing, flip-flop A/B, always-true whose action activates another agenda group}} x {{no-loop, not}} x 3 priority patterns (incl. i32::MIN / i32::MAX) = {} runs, each in a watched child (timeout {:?})", ENGINES.len(), n, timeout);
     rep.wall_s = t0.elapsed().as_secs_f64();
-    rep
+    (rep, not_returning)
 }
 
 pub fn run(opts: &Opts) -> Vec<Report> {
@@ -665,11 +692,16 @@ pub fn run(opts: &Opts) -> Vec<Report> {
     if crate::props::wants(opts, "engine_firing_order") {
         out.push(run_order(opts));
     }
-    if crate::props::wants(opts, "no_loop_across_calls") {
-        out.push(run_second_call(opts));
-    }
+    // the isolated termination runs come first: a rule set whose fire_all does not return there is reported there and
+    // must not be run again inside this process
+    let mut not_returning = BTreeSet::new();
     if crate::props::wants(opts, "termination") {
-        out.push(run_termination(opts));
+        let (r, bad) = run_termination(opts);
+        not_returning = bad;
+        out.push(r);
+    }
+    if crate::props::wants(opts, "no_loop_across_calls") {
+        out.push(run_second_call(opts, &not_returning));
     }
     out
 }
